@@ -173,3 +173,28 @@ def permute(xs, perm):
 def perms(n):
     import itertools
     return list(itertools.permutations(range(n)))
+
+
+# ---------------------------------------------------------------- binomial
+def grid_bop(rng, den, a_open=False):
+    b, u = grid_simplex(rng, 2, den)
+    a = (1 + rng.below(den - 1)) / den if a_open else rng.below(den + 1) / den
+    return [b[0], b[1], u, a]
+
+
+def float_bop(rng, ty, a_open=False):
+    b, u = float_simplex(rng, ty, 2)
+    a = num.rnd(ty, rng.unit())
+    if a_open and (a <= 0.0 or a >= 1.0):
+        a = 0.5
+    return [b[0], b[1], u, a]
+
+
+def all_grid_bops(den):
+    out = []
+    for b in range(den + 1):
+        for d in range(den + 1 - b):
+            u = den - b - d
+            for a in range(den + 1):
+                out.append([b / den, d / den, u / den, a / den])
+    return out
